@@ -21,7 +21,7 @@ pub struct StackCase {
 }
 
 pub fn strategy() -> BoxedStrategy<StackCase> {
-    let mix = Mix { update: 10, commit: 8, meldrefresh: 7, meld: 2, refresh: 1, reload: 0, reopen: 1, filecopy: 0, resolve: 2, unstage: 0, stagert: 0, snapshot: 1, timetravel: 0, lowlevel: 0, mergecommit: 2, churn: 1, faultycommit: 0, foreign: 0, faultymeld: 0, snaprace: 0, rich: false, rich_info: true };
+    let mix = Mix { update: 10, commit: 8, meldrefresh: 7, meld: 2, refresh: 1, reload: 0, reopen: 1, filecopy: 0, resolve: 2, unstage: 0, stagert: 0, snapshot: 1, timetravel: 0, lowlevel: 0, mergecommit: 2, churn: 1, faultycommit: 0, foreign: 0, faultymeld: 0, snaprace: 0, tornblock: 0, rich: false, rich_info: true };
     (gen::history(&mix, 20), prop_oneof![2 => Just(0u16), 1 => 20u16..90, 2 => 90u16..400], any::<u64>(), any::<u8>())
         .prop_map(|(ops, big_kb, big_seed, at)| StackCase { ops, big_kb, big_seed, at })
         .boxed()
